@@ -20,6 +20,8 @@ Transformations
   chain-split    ``a <= x <= b`` -> ``a <= x and x <= b`` (call-free middle operand)
   ifexp-to-if    ``v = A if c else B`` / ``return A if c else B`` -> the if-statement form
   extract-arg    ``v = f(g(x), ...)`` -> ``_arg = g(x); v = f(_arg, ...)`` (statement-level call, first argument a call)
+  extract-arg-apart  the same with a statement without effect between the temporary and its use (so that the rules cannot
+                 rely on normalisation N5 putting the expression back)
   else-then-flip else-after-exit followed by flip-if (``if not c: return X`` + rest -> ``if c: rest`` / ``else: return X``)
   insert-noop    a call without effect (``(lambda: None)()``, standing for a log line) at the start of every function
                  body and loop body
@@ -499,8 +501,9 @@ class _ExtractArg(ast.NodeTransformer):
     """`v = f(g(x), ...)` -> `_arg = g(x); v = f(_arg, ...)` for statement-level calls whose callee is a plain name or
     dotted name and whose first positional argument is itself a call (an "extract variable" refactoring)."""
 
-    def __init__(self):
+    def __init__(self, apart=False):
         self.n = 0
+        self.apart = apart  # put a statement without effect between the temporary and its use
 
     @staticmethod
     def _dotted(e):
@@ -523,6 +526,9 @@ class _ExtractArg(ast.NodeTransformer):
                 self.n += 1
                 name = f"_arg{self.n}"
                 out.append(ast.copy_location(ast.Assign(targets=[ast.Name(id=name, ctx=ast.Store())], value=v.args[0]), st))
+                if self.apart:
+                    noop = ast.Expr(ast.Call(func=ast.Lambda(args=ast.arguments(posonlyargs=[], args=[], kwonlyargs=[], kw_defaults=[], defaults=[]), body=ast.Constant(None)), args=[], keywords=[]))
+                    out.append(ast.copy_location(noop, st))
                 v.args[0] = ast.Name(id=name, ctx=ast.Load())
             out.append(st)
         return out
@@ -573,6 +579,7 @@ TRANSFORMS = {
     "chain-split": lambda tree: _ChainSplit().visit(tree),
     "ifexp-to-if": lambda tree: _IfExpToIf().visit(tree),
     "extract-arg": lambda tree: _ExtractArg().visit(tree),
+    "extract-arg-apart": lambda tree: _ExtractArg(apart=True).visit(tree),
 }
 TRANSFORMS["else-then-flip"] = _compose("else-after-exit", "flip-if")
 
